@@ -51,7 +51,8 @@ def _is_printable_code(c) -> bool:
   return _is_character_code(c) and c != 0x20
  
 def _is_control_code(c) -> bool:
-  return 0x00 <= c <= 0x07 or 0x0A <= c <= 0x0D or 0x1C <= c <= 0x1D or 0x80 <= c <= 0x85
+  # 0x00-0x1F: teletext control codes (all of them are spacing attributes), 0x80-0x85: open subtitling control codes
+  return 0x00 <= c <= 0x1F or 0x80 <= c <= 0x85
 
 def _is_newline_code(c) -> bool:
   return c == 0x8A
